@@ -92,6 +92,14 @@ fn validate_glob_patterns(config: &Config) -> Result<()> {
             source: e,
         })?;
     }
+    // Compiled by the structure scanner only when a structure limit, rule or list is set;
+    // validate here so an invalid pattern is rejected in every configuration
+    for pattern in &config.structure.count_exclude {
+        globset::Glob::new(pattern).map_err(|e| SlocGuardError::InvalidPattern {
+            pattern: pattern.clone(),
+            source: e,
+        })?;
+    }
     Ok(())
 }
 
